@@ -197,6 +197,14 @@ impl Property for C03 {
             fingerprint: fp,
             execs: 1,
         };
+        if name == "generated" {
+            // generated programs must be inside the defined semantics (no self-referencing tables,
+            // no loops that grow what they iterate): judged by the reference interpreter
+            let r = crate::refsem::run_reference(&p, 40_000);
+            if let Err(crate::refsem::ErrKind::Undefined(w)) = &r.outcome {
+                return CaseOut { verdict: Verdict::Discard(w), nontrivial: false, labels, fingerprint: fp, execs: 0 };
+            }
+        }
         let prog = match compile_program(&p) {
             Ok(x) => x,
             Err(e) => return mk("compiles", format!("{}", e)),
